@@ -35,7 +35,9 @@ pub fn make_case(r: &mut rand::rngs::StdRng, k: usize, nenv: usize, safety_margi
     for i in 0..6 {
         let o = links[i].translation.vector;
         let idx = sc.idx(i);
-        sc.boxes[idx] = WBox { c: [o.x, o.y, o.z + 0.001 * i as f64], h: [0.03, 0.03, 0.03] };
+        // every third case has bulky links so that some IK branches self-collide even without environment
+        let hl = if k % 3 == 2 { [0.07, 0.07, 0.07] } else { [0.03, 0.03, 0.03] };
+        sc.boxes[idx] = WBox { c: [o.x, o.y, o.z + 0.001 * i as f64], h: hl };
     }
     let fl = links[5];
     let tip = fl * nalgebra::Point3::new(0.0, 0.0, 0.09);
@@ -86,7 +88,7 @@ pub fn record(output: &str) {
     let n = if thorough() { 700 } else { 90 };
     let nano = |x: f64| -> i64 { if x.is_finite() { (x * 1e9).round().min(2e9) as i64 } else { 2_000_000_000 } };
     for k in 0..n {
-        let case = make_case(&mut r, k, 2 + k % 4, k % 5 == 4);
+        let case = make_case(&mut r, k, if k % 3 == 2 { 0 } else { 2 + k % 4 }, k % 5 == 4);
         let kws = &case.kws;
         for rep in 0..4 {
             let q: Joints = std::array::from_fn(|i| r.gen_range(case.from[i] * 0.8..case.to[i] * 0.8));
